@@ -42,6 +42,127 @@ ALLOW_RE = [
 ]
 
 
+# ---------------------------------------------------------------- Tie B: MiniC translation of the leaf functions (tools/c2minic.py)
+MINIC_CORE = ["MiniC.eval_ni", "MiniC.exec_ni", "MiniC.soundness", "MiniC.exec_fuel_mono"]
+_MINIC_PROPS = os.path.join(vcore.LEAN, "SodiumModel", "Properties", "C11MiniC.lean")
+MINIC_PROPS = ["Sodium.C11MiniC." + n for n in re.findall(r"^theorem\s+([A-Za-z0-9_']+)", vcore.strip_comments(open(_MINIC_PROPS).read()), re.M)] if os.path.exists(_MINIC_PROPS) else []
+THEOREMS = THEOREMS + MINIC_CORE + MINIC_PROPS
+IMPORTS = IMPORTS + ["SodiumModel.MiniC.Soundness", "SodiumModel.Properties.C11MiniC"]
+
+SEARCH_TMPL = """import Generated.MiniCFuns
+import SodiumModel.MiniC.Semantics
+import SodiumModel.MiniC.CtCheck
+open MiniC Sodium.Generated.MiniC
+/- search for two inputs of `%(fn)s` that agree on everything labelled Public and give different leakage traces -/
+def lcg (s : Nat) : Nat := (s * 6364136223846793005 + 1442695040888963407) %% 2 ^ 64
+def rnd (s : Nat) (k : Nat) : Nat := (lcg (s + 7919 * k)) / 2 ^ 33
+def mkArr (seed mode len : Nat) : List Int :=
+  (List.range len).map fun i =>
+    if mode == 0 then 0 else if mode == 1 then 255 else if mode == 2 then (if i + 1 == len then 1 else 0)
+    else if mode == 3 then (if i == 0 then 128 else 0) else Int.ofNat (rnd seed i %% 256)
+def specOf : Spec := ((%(specs)s).lookup "%(fn)s").getD ⟨[], [], false⟩
+def inputs (pubSeed secSeed mode : Nat) : List Int × List (List Int) :=
+  let fn := fn_%(fn)s
+  let n := rnd pubSeed 1000 %% 40
+  let vals := fn.params.zipIdx.map fun (p, i) =>
+    if specOf.pubVars.contains p then (if i %% 2 == 0 then Int.ofNat n else Int.ofNat (rnd pubSeed (2000 + i) %% 4 + 1))
+    else (if mode == 0 then 0 else if mode == 1 then 1 else Int.ofNat (rnd secSeed (3000 + i) %% 256))
+  let arrs := fn.arrParams.zipIdx.map fun (a, i) =>
+    if specOf.pubArrs.contains a then mkArr (pubSeed + i) 4 48 else mkArr (secSeed + 31 * i) (if mode < 4 then (mode + i) %% 5 else 4) 48
+  (vals, arrs)
+def run (pubSeed secSeed mode : Nat) : Res :=
+  let i := inputs pubSeed secSeed mode
+  runFun prog_%(fn)s 200000 fn_%(fn)s i.1 i.2
+def firstDiff : List Ev → List Ev → Nat → Option (Nat × String × String)
+  | a :: as, b :: bs, k => if a = b then firstDiff as bs (k + 1) else some (k, reprStr a, reprStr b)
+  | [], b :: _, k => some (k, "(end of trace)", reprStr b)
+  | a :: _, [], k => some (k, reprStr a, "(end of trace)")
+  | [], [], _ => none
+def main : IO Unit := do
+  for t in List.range 400 do
+    let pub := 1000 + t / 8
+    let r1 := run pub (2 * t + 1) (t %% 6)
+    let r2 := run pub (2 * t + 2) ((t / 6) %% 6)
+    match firstDiff r1.tr r2.tr 0 with
+    | some (k, a, b) =>
+      let i1 := inputs pub (2 * t + 1) (t %% 6)
+      let i2 := inputs pub (2 * t + 2) ((t / 6) %% 6)
+      IO.println s!"WITNESS function=%(fn)s params={fn_%(fn)s.params} arrays={fn_%(fn)s.arrParams} | run1: scalars={i1.1} arrays={i1.2.map (·.take 12)} | run2: scalars={i2.1} arrays={i2.2.map (·.take 12)} | first differing trace event #{k}: run1={a} run2={b} (trace lengths {r1.tr.length} / {r2.tr.length})"
+      return
+    | none => pure ()
+  IO.println "NO-WITNESS"
+"""
+
+
+def _minic_search(ctx, fn):
+    """the checker rejected the regenerated function: look for a concrete pair of inputs, equal on everything Public, whose leakage traces under the
+    MiniC semantics differ (a source-level witness of the secret-dependent branch / address)"""
+    f = os.path.join(ctx.scratch, "MiniCSearch_%s.lean" % fn)
+    open(f, "w").write(SEARCH_TMPL % {"fn": fn, "specs": "specs_" + fn})
+    # specs_<fn> lives in MiniCObligations (which no longer compiles): restate it from the generated text
+    obl = open(os.path.join(vcore.LEAN, "Generated", "MiniCObligations.lean")).read()
+    m = re.search(r"^def specs_%s : Ctx := (.*)$" % re.escape(fn), obl, re.M)
+    if not m:
+        return None
+    src = open(f).read().replace("(specs_%s)" % fn, "(%s : Ctx)" % m.group(1))
+    open(f, "w").write(src)
+    subprocess.run(["lake", "build", "+Generated.MiniCFuns"], cwd=vcore.LEAN, capture_output=True, text=True)
+    p = subprocess.run(["lake", "env", "lean", "--run", f], cwd=vcore.LEAN, capture_output=True, text=True, timeout=900)
+    for ln in (p.stdout + p.stderr).split("\n"):
+        if ln.startswith("WITNESS"):
+            return ln
+    return None
+
+
+def tie_b(ctx):
+    """Regenerate Generated/MiniCFuns.lean + MiniCObligations.lean from /repo's current source (clang AST -> MiniC) and let the kernel decide
+    `ctCheck … = true` for each function; the instantiated soundness theorem then gives non-interference of the leakage trace of the code as it is now."""
+    import fcntl, c2minic
+    with open(os.path.join(vcore.LEAN, ".lake-lock"), "w") as lk:
+        fcntl.flock(lk, fcntl.LOCK_EX)
+        t = time.time()
+        r = c2minic.run_tie(vcore.LEAN)
+        fns = [x["fn"] for x in r.get("translated", [])]
+        ctx.stats["minic_functions_translated"] = ["%s [%s]" % (x["fn"], x["variant"]) for x in r.get("translated", [])]
+        ctx.stats["minic_tie_s"] = round(time.time() - t, 1)
+        out = []
+        if r["status"] == "refused":
+            ctx.log("Tie B (MiniC): translator refuses the current source: %s" % r["error"][:300])
+            return [("translator", "tools/c2minic.py no longer recognises the source of a constant-time leaf function (outside the MiniC fragment): %s" % r["error"])]
+        if r["status"] == "failed":
+            for name in r["failed"]:
+                fn = re.sub(r"^(ct|ni)_", "", name)
+                w = _minic_search(ctx, fn) if fn in fns else None
+                msg = ("the constant-time type checker rejects `%s` as translated from the current source (or a concrete example about it no longer evaluates as expected)" % fn)
+                if w:
+                    msg += "; source-level witness under the MiniC semantics — two inputs equal on everything Public with different leakage traces: " + w
+                    ctx.violations_with_input = getattr(ctx, "violations_with_input", 0) + 1
+                out.append(("Sodium.Generated.MiniC." + name, msg + "\n" + r["log"][-800:]))
+            ctx.log("Tie B (MiniC): %d functions translated, obligations failing: %s" % (len(fns), r["failed"]))
+            for fn in fns:
+                ctx.obligations.append({"theorem": "Sodium.Generated.MiniC.ni_" + fn, "axioms": ["(not audited: obligations file does not build)"]})
+            ctx.discharged = len(ctx.obligations) - len(out)
+            return out
+        # all obligations check: audit the axioms of the instantiated non-interference theorems
+        names = ["Sodium.Generated.MiniC.ni_" + fn for fn in fns]
+        src = "import Generated.MiniCObligations\n" + "".join("#print axioms %s\n" % n for n in names)
+        f = os.path.join(ctx.scratch, "AuditMiniC.lean")
+        open(f, "w").write(src)
+        p = subprocess.run(["lake", "env", "lean", f], cwd=vcore.LEAN, capture_output=True, text=True)
+        o = p.stdout + p.stderr
+        for n in names:
+            m = re.search(r"'%s' depends on axioms: \[([^\]]*)\]" % re.escape(n), o)
+            ax = [a.strip() for a in m.group(1).replace("\n", " ").split(",")] if m else None
+            if ax is None and ("'%s' does not depend on any axioms" % n) in o:
+                ax = []
+            if ax is None or any(a not in vcore.ALLOWED_AXIOMS for a in ax):
+                raise vcore.BrokenCheck("axiom audit of %s failed: %s" % (n, o[-800:]))
+            ctx.obligations.append({"theorem": n, "axioms": ax})
+        ctx.discharged = len(ctx.obligations)
+        ctx.log("Tie B (MiniC): %d functions re-translated from the source, ctCheck accepted by the kernel for each, %d non-interference corollaries audited (%.0fs)" % (len(fns), len(names), time.time() - t))
+        return []
+
+
 def configs(tier):
     if tier == "quick":
         return [("native", "avx512f", "plain"), ("native", "avx512f,avx2,avx1", "plain"), ("portable", "", "plain")]
